@@ -95,7 +95,7 @@ impl Bed {
         let mut d = new_driver(tag);
         d.exec(Op::Init { hash: hist::ZERO_HASH.into(), ts: 1, height: 0 });
         let pk = "5120c1c1c1c1c1c1c1c1c1c1c1c1c1c1c1c1c1c1c1c1c1c1c1c1c1c1c1c1c1c1c1".to_string();
-        let h = format!("0x{:064x}", 0xc16u64);
+        let h = crate::hist::bh((0xc16u64) as u64);
         let r1 = d.exec(Op::Deploy { pk: pk.clone(), data: hist::hx(&asm::tool_init()), enc: Enc::Hex, ctx: Ctx { ts: 2, hash: h.clone(), idx: 0 }, iid: "bed-tool".into(), len: 100_000, txid: hist::ZERO_HASH.into() });
         let r2 = d.exec(Op::Deploy { pk: pk.clone(), data: hist::hx(&asm::batcher_init()), enc: Enc::Hex, ctx: Ctx { ts: 2, hash: h.clone(), idx: 1 }, iid: "bed-batcher".into(), len: 100_000, txid: hist::ZERO_HASH.into() });
         let tool = hist::created_address(&r1)?;
